@@ -3,6 +3,8 @@ package graphql
 import (
 	"context"
 	"time"
+
+	"github.com/graphql-go/graphql/language/ast"
 )
 
 // zzCancelCtx: a caller-supplied context cancelled by the harness.
@@ -30,15 +32,25 @@ func (c *zzCancelCtx) cancel() {
 // complete normal response.
 func ZZ_C16_cancel() {
 	const n = 3
-	point := zzChoice("point", n+3) // 0 before, 1..n at resolver k, n+1 after last, n+2 never
+	// 0 before, 1..n at resolver k, n+1 after last, n+2 never, n+3 during variable coercion
+	point := zzChoice("point", n+4)
+	mutation := zzChoice("op", 2) == 1 // the same three fields as a (serial) mutation
 	observe := zzChoice("observe", 2) == 1
 	ctx := &zzCancelCtx{done: make(chan struct{})}
 	reached := make(chan struct{})
 	gate := make(chan struct{}) // never opened
 	var calls int
+	// errFirst: the cancellation becomes visible through Err() before Done() is
+	// signalled (the window every context implementation has between recording
+	// the error and closing the channel), here stretched over the rest of the call
+	errFirst := point >= 1 && point <= n && zzChoice("errfirst", 2) == 1
 	resolver := func(k int) FieldResolveFn {
 		return func(p ResolveParams) (interface{}, error) {
 			calls++
+			if k == point && errFirst {
+				ctx.err = context.Canceled
+				return k, nil
+			}
 			if k == point {
 				close(reached)
 				if observe {
@@ -57,23 +69,44 @@ func ZZ_C16_cancel() {
 			return k, nil
 		}
 	}
-	q := NewObject(ObjectConfig{Name: "Query", Fields: Fields{
-		"f1": &Field{Type: Int, Resolve: resolver(1)},
+	// a custom scalar whose ParseValue is user code running during variable coercion
+	slow := NewScalar(ScalarConfig{Name: "Slow",
+		Serialize: func(v interface{}) interface{} { return v },
+		ParseValue: func(v interface{}) interface{} {
+			if point == n+3 {
+				select {
+				case <-reached:
+				default:
+					close(reached)
+				}
+				<-gate // blocks for ever: the call must not wait for it
+			}
+			return v
+		},
+		ParseLiteral: func(v ast.Value) interface{} { return 1 }})
+	fields := Fields{
+		"f1": &Field{Type: Int, Args: FieldConfigArgument{"s": &ArgumentConfig{Type: slow}}, Resolve: resolver(1)},
 		"f2": &Field{Type: Int, Resolve: resolver(2)},
 		"f3": &Field{Type: Int, Resolve: resolver(3)},
-	}})
-	schema, err := NewSchema(SchemaConfig{Query: q})
+	}
+	q := NewObject(ObjectConfig{Name: "Query", Fields: fields})
+	m := NewObject(ObjectConfig{Name: "Mutation", Fields: fields})
+	schema, err := NewSchema(SchemaConfig{Query: q, Mutation: m})
 	zzAssert(err == nil, "schema")
 	if point == 0 {
 		ctx.cancel()
-	} else if point <= n+1 {
+	} else if (point <= n+1 || point == n+3) && !errFirst {
 		go func() {
 			<-reached
 			ctx.cancel()
 		}()
 	}
 	zzSched(true, zzParam("P", 1))
-	r := Do(Params{Schema: schema, RequestString: "{ f1 f2 f3 }", Context: ctx})
+	req := "query($s: Slow){ f1(s: $s) f2 f3 }"
+	if mutation {
+		req = "mutation($s: Slow){ f1(s: $s) f2 f3 }"
+	}
+	r := Do(Params{Schema: schema, RequestString: req, VariableValues: map[string]interface{}{"s": 1}, Context: ctx})
 	zzSched(false, 0)
 	zzAssert(r != nil, "nil result")
 	isCtxErr := r.Data == nil && len(r.Errors) == 1 && r.Errors[0].Message == "context canceled"
@@ -88,8 +121,11 @@ func ZZ_C16_cancel() {
 		observedFull = len(m) == 3 && len(r.Errors) == 1 && r.Errors[0].Message == "context canceled"
 	}
 	zzAssert(isCtxErr || full || observedFull, "result is neither the context error nor the complete response")
-	if point >= 1 && point <= n && !observe {
+	if point >= 1 && point <= n && !observe && !errFirst {
 		zzAssert(isCtxErr, "a blocked resolver: the call must return the context error")
+	}
+	if point == n+3 {
+		zzAssert(isCtxErr, "variable coercion blocked in user code: the call must return the context error")
 	}
 	if point == n+2 {
 		zzAssert(full, "without cancellation the complete response is returned")
